@@ -165,6 +165,9 @@ def _havoc_body(info, s, brackets, expected, comments, strlist, junk, pos, exts)
         setattr(p.lexer, name, Poison())
     es = P.LazyExtSet().setup(dict(zip(P.ALL_EXT, exts)))
     SC.RequireCommand.loaded_extensions = es
+    info["concrete"] = dict(s=si, brackets=[("x", b"y")], expected=("semicolon",), comments=[b"# z"],
+                            strlist=["q"], junk=j, pos=3, e0=True, e1=False, e2=True, e3=False, e4=True,
+                            e5=False, e6=True, e7=False, e8=True, e9=False, e10=True, e11=False, e12=True)
     # ---- the call under test
     before = notrace(definitions_snapshot)
     got = outcome(p, script)
@@ -175,9 +178,6 @@ def _havoc_body(info, s, brackets, expected, comments, strlist, junk, pos, exts)
         changed = sorted(k for k in before if before[k] != after.get(k))
         raise Violation("C13/parse-mutates-shared-definitions/%s" % (changed[0] if changed else "?"),
                         {"script": notrace(_txt, script), "changed": changed})
-    info["concrete"] = dict(s=si, brackets=[("x", b"y")], expected=("semicolon",), comments=[b"# z"],
-                            strlist=["q"], junk=j, pos=3, e0=True, e1=False, e2=True, e3=False, e4=True,
-                            e5=False, e6=True, e7=False, e8=True, e9=False, e10=True, e11=False, e12=True)
     info["show"] = {"script": notrace(_txt, script), "junk": j}
     info["steps"] = 1
     info["cls"] = "s%d" % si
